@@ -1,7 +1,11 @@
 """Shared lowering rules for units that use opaque strings and the abstract DOM (qtmodel/opaque.h)."""
+import re
 from .cxx2c import Profile, StringTable
 
-TYPES = {'QString': 'qstr', 'QStringView': 'qstr', 'QLatin1String': 'qstr', 'QDomElement': 'qdom', 'QDomNode': 'qdom'}
+TYPES = {'QString': 'qstr', 'QStringView': 'qstr', 'QLatin1String': 'qstr', 'QDomElement': 'qdom', 'QDomNode': 'qdom',
+         'QRegularExpression': 'qstr', 'QRegularExpressionMatch': 'qrematch', 'QChar': 'qstr'}
+# QT_USE_QSTRINGBUILDER: a + b on strings has a QStringBuilder<...> type; it is the (opaque) concatenation
+TYPE_PATTERNS = [(re.compile(r'QStringBuilder<.*>(::ConvertTo)?'), 'qstr'), (re.compile(r'char16_t\[\d+\]'), 'qstr')]
 
 CALLS = {
     'op==:qstr:qstr': ('expr', '{0} == {1}'),
@@ -24,6 +28,14 @@ CALLS = {
     'fn:nextSiblingElement/2': ('expr', 'qdom_nextSiblingElement({0}, {1}, 0)'),
     'fn:nextSiblingElement/1': ('expr', 'qdom_nextSiblingElement({0}, 0, 0)'),
     'fn:move/1': ('arg', 0),
+    # string concatenation and regular expressions: uninterpreted (qtmodel/opaque.h)
+    'op+:qstr:qstr': ('fn', 'qstr_concat'),
+    'qstr::operator QString/0': ('arg', 0),
+    'qstr::arg/1': ('fn', 'qstr_concat'),
+    'fn:anchoredPattern/1': ('fn', 'qstr_anchoredPattern'),
+    'fn:escape/1': ('fn', 'qstr_regexEscape'),
+    'qstr::match/1': ('fn', 'qstr_regexMatch'),
+    'qrematch::hasMatch/0': ('expr', '{0} != 0'),
     # QXmppUtils JID helpers as uninterpreted functions with their idempotence axioms (qtmodel/opaque.h)
     'fn:jidToBareJid/1': ('fn', 'qstr_jidToBareJid'),
     'fn:jidToResource/1': ('fn', 'qstr_jidToResource'),
@@ -42,5 +54,7 @@ def opaque_profile(types=None, class_types=None, calls=None, **kw):
     t.update(types or {})
     c = dict(CALLS)
     c.update(calls or {})
-    return Profile(types=t, class_types=class_types or set(), calls=c, literal_ids=StringTable(), string_types={'qstr'},
-                   default_args={'qstr': '0'}, **kw)
+    p = Profile(types=t, class_types=class_types or set(), calls=c, literal_ids=StringTable(), string_types={'qstr'},
+                default_args={'qstr': '0'}, **kw)
+    p.type_patterns = list(TYPE_PATTERNS)
+    return p
